@@ -69,7 +69,9 @@ var c06big = []int{300000, 1 << 20, 3<<20 + 17, 255 * 65519}
 func (c06) Run(t *tape.Tape, st *Stats) *Violation {
 	st.Evals++
 	var f *refmodel.File
+	enumerated := false
 	if t.Draw(2) == 0 {
+		enumerated = true
 		perm := c06perms[t.Intn(len(c06perms))]
 		p := refmodel.DrawJPEG(t, 1, []int{len(perm), 100 * len(perm), 65519*(len(perm)-1) + 7}, false, perm)
 		f = refmodel.BuildJPEG(p)
@@ -143,9 +145,15 @@ func (c06) Run(t *tape.Tape, st *Stats) *Violation {
 		loader = LoaderAuto
 	}
 	cfg := DrawDelivery(t, tr.Fields, true)
+	ioFault := DrawIOFault(t, &cfg, tr.Fields, tr.NeededEnd)
+	if enumerated && ioFault {
+		ioFault, cfg.ErrAt = false, -1 // the chunk-order permutations are an enumeration: every order is judged
+	}
 	src := simio.NewSource(simio.Bytes(data), cfg)
 	res := SafeLoad(loader, src)
 	v := View(res)
+	firedDuringLoad := src.ErrFired
+	st.Fault("io_error_before_the_metadata_is_complete", ioFault, firedDuringLoad > 0)
 	st.Class(tr.Format + ":icc-" + tr.ICCState.String())
 	deliveryStats(st, src)
 	straddleProbe(st, src, tr.Fields, src.Delivered)
@@ -170,7 +178,7 @@ func (c06) Run(t *tape.Tape, st *Stats) *Violation {
 		st.Sample(render())
 	}
 	fail := func(class, detail string) *Violation {
-		return &Violation{Class: class, Sig: loader.Name + ":" + tr.Format + ":" + class + ":" + tr.Damage, Detail: detail + " [" + trunc(tr.Desc, 300) + " via " + loader.Name + " under " + cfg.String() + "]", Render: render()}
+		return &Violation{Class: class, Sig: loader.Name + ":" + tr.Format + ":" + class + ":" + tr.Damage, Detail: detail + " [" + trunc(tr.Desc, 300) + " via " + loader.Name + " under " + cfg.String() + "]" + faultNote(cfg, firedDuringLoad), Render: render()}
 	}
 	if res.Panic != nil {
 		return fail("panic", fmt.Sprintf("Load panicked: %v", res.Panic))
@@ -184,6 +192,28 @@ func (c06) Run(t *tape.Tape, st *Stats) *Violation {
 		}
 	}
 	basicOK := v.OK && v.Format == tr.Format && v.W == tr.W && v.H == tr.H && v.Bits == tr.Bits
+	if firedDuringLoad > 0 {
+		// the source reported an I/O error during Load. The loader may fail, may
+		// report the profile as unreadable, or (error absorbed, or late enough)
+		// return exactly what it returns without the fault - never anything else:
+		// not "no profile" for a file that embeds one, not other bytes, not other
+		// dimensions
+		switch {
+		case !v.OK:
+			return nil
+		case !basicOK:
+			return fail("io-error-swallowed", fmt.Sprintf("the source failed during Load, yet Load succeeded with wrong basic metadata %+v (header says %s %dx%d %d bits)", v, tr.Format, tr.W, tr.H, tr.Bits))
+		case v.ICCErr != "":
+			return nil
+		case tr.ICCState == refmodel.ICCPresent && (v.ICCNil || !bytes.Equal(v.icc, tr.ICC)):
+			return fail("io-error-swallowed", fmt.Sprintf("the source failed during Load, yet Load succeeded and ICCProfileData returned %d bytes (nil=%v) without error; embedded are %d bytes", v.ICCLen, v.ICCNil, len(tr.ICC)))
+		case tr.ICCState == refmodel.ICCAbsent && !v.ICCNil:
+			return fail("io-error-swallowed", fmt.Sprintf("the source failed during Load, yet ICCProfileData returned %d bytes for a file without profile", v.ICCLen))
+		case tr.ICCState == refmodel.ICCDamaged:
+			return fail("damage-not-reported", fmt.Sprintf("profile damaged (%s) but ICCProfileData returned %d bytes (nil=%v) without error", tr.Damage, v.ICCLen, v.ICCNil))
+		}
+		return nil
+	}
 	switch tr.ICCState {
 	case refmodel.ICCPresent:
 		if !v.OK {
